@@ -515,7 +515,8 @@ def replay(pid, path):
 
 
 def write_evidence(mod, pid, tier, master, total, wall, hashseeds, jobs, tcfg, known_seen):
-    d = os.path.join(VERIF, "evidence")
+    # sensitivity runs against a deliberately broken tree (tools/runmut.sh) must not overwrite the evidence of the real tree
+    d = os.environ.get("VERIF_EVIDENCE_DIR") or os.path.join(VERIF, "evidence")
     os.makedirs(d, exist_ok=True)
     cov = {
         "evaluations": total.evals,
